@@ -23,13 +23,33 @@ def view(o, names):
     return v
 
 
-def impl_trace(spec, nsteps, mode="single_stage_pipeline", hazards=True, extra=None):
+def _interferer(other):
+    """a second, unrelated live simulation stepped between the steps of the observed one: simulations
+    are independent objects, so it must never influence the trace (other = [spec, mode] or None)"""
+    if not other:
+        return lambda: None
+    sim2 = make_sim(other[0], other[1], True)
+
+    def poke():
+        try:
+            if not sim2.is_done():
+                sim2.step()
+            sim2.get_register_entries()
+            sim2.get_instruction_memory_entries()
+        except Exception:
+            pass
+    return poke
+
+
+def impl_trace(spec, nsteps, mode="single_stage_pipeline", hazards=True, extra=None, other=None):
     """observations after every step, then a terminal record:
        [0] done, [1, [addr, repr, err], state] fault, [2] step bound, [9, text] foreign exception"""
     from architecture_simulator.simulation.runtime_errors import InstructionExecutionException
     sim = make_sim(spec, mode, hazards)
+    poke = _interferer(other)
     obs = [obs_state(sim) + (extra(sim) if extra else [])]
     for _ in range(nsteps):
+        poke()
         if sim.is_done():
             obs.append([0])
             return obs
